@@ -573,11 +573,13 @@ func (he *HashEntry) String() string {
 	return px.ToString2(he, None)
 }
 
+// ToKey writes the key of the two element array [key, value], which the entry is equal to
 func (he *HashEntry) ToKey(b *bytes.Buffer) {
 	b.WriteByte(0)
-	b.WriteByte(HkEntry)
+	b.WriteByte(HkArray)
 	appendKey(b, he.key)
 	appendKey(b, he.value)
+	b.WriteByte(HkEnd)
 }
 
 func (he *HashEntry) ToString(b io.Writer, s px.FormatContext, g px.RDetect) {
